@@ -58,6 +58,8 @@ class ScriptedListener(plumpy.ProcessListener):
         super().__init__()
         self.world = world
         self.script = script
+        # one (event, n, op) triple or a tuple of such triples
+        self.scripts = () if script is None else ((script,) if isinstance(script[0], str) else tuple(script))
         self.counts: Dict[str, int] = {}
         self.log: List[tuple] = []
 
@@ -65,9 +67,9 @@ class ScriptedListener(plumpy.ProcessListener):
         n = self.counts.get(name, 0) + 1
         self.counts[name] = n
         self.log.append((name,) + tuple(args))
-        if self.script is not None and self.script[0] == name and self.script[1] == n:
-            op = self.script[2]
-            self.world.logged_call(proc, op[0], op[1:], origin=f'listener:{name}')
+        for ev, nth, op in self.scripts:
+            if ev == name and nth == n:
+                self.world.logged_call(proc, op[0], op[1:], origin=f'listener:{name}')
 
     def on_process_running(self, process: Any) -> None:
         self._event('running', process)
@@ -228,6 +230,7 @@ class World:
         proc = self.proc
         ready = loop.has_ready()
         live = self.live()
+        post = self.cfg.ops_when == 'always' and not live
         if ready:
             opts.append((('tick',), '', loop.tick))
         elif live and self.closing_used < self.cfg.max_closing:
@@ -237,14 +240,17 @@ class World:
             elif self.ops_left():
                 # quiescent and live with nothing to close: the default is to stop here, deviations may still act
                 opts.append((('end',), '', self._end))
+        elif post:
+            opts.append((('end',), '', self._end))
         if not opts:
             return opts
-        if live:
+        if live or post:
             for op in self.cfg.alphabet:
-                if op[0] == 'resume' and proc.state != ProcessState.WAITING:
+                if op[0] == 'resume' and proc.state != ProcessState.WAITING and not post:
                     continue
                 cost = self.cfg.cost_of(op) if self.cfg.cost_of is not None else self.cfg.op_cost
                 opts.append((op, cost, self._op_thunk(op)))
+        if live:
             if self.cfg.early_gates:
                 first_default = opts[0][0]
                 for g in self.pending_gates():
